@@ -10,6 +10,9 @@ theorem Inv.setStages {m : VLog} (hi : Inv m) (st : List Nat) (h1 : ∀ c ∈ st
     Inv { m with stages := st } :=
   ⟨hi.wl, hi.vptr, hi.owner, hi.nodup, hi.len, hi.size, hi.del, h1, h2⟩
 
+theorem Inv.setLastCp {m : VLog} (hi : Inv m) (c : Nat) : Inv { m with lastCp := c } :=
+  ⟨hi.wl, hi.vptr, hi.owner, hi.nodup, hi.len, hi.size, hi.del, hi.stagesLe, hi.stagesSorted⟩
+
 theorem upsertNode_of_mem (nodes : List Node) (k : Bytes) (f : Node → Node) (h : ∃ n ∈ nodes, n.key = k) :
     VLog.upsertNode nodes k f = nodes.map (fun n => if n.key = k then f n else n) := by
   have hany : nodes.any (fun n => n.key = k) = true := by
@@ -263,7 +266,7 @@ theorem revertTo_refines {m : VLog} (hi : Inv m) (cp : Nat) (hcp : cp ≤ m.log.
   · simp only [abs, VLog.revertTo, Spec.undoTo, hlen]
     simp only [abs] at hcells
     rw [hcells]
-  · have := hinv.setStages st (by intro c hc; show c ≤ _; rw [hlen]; exact h1 c hc) h2
+  · have := (hinv.setStages st (by intro c hc; show c ≤ _; rw [hlen]; exact h1 c hc) h2).setLastCp (min m.lastCp cp)
     simpa [VLog.revertTo] using this
 
 end CGV.MemBuf
